@@ -272,8 +272,12 @@ def install(E):
         tt = e.types[pt]['elem']
         if tr is None:
             mode = e.P.g.get('json_havoc', True)
-            if not mode: return mkerr('invalid character looking for beginning of value')
-            if e.choose(2) == 0: return mkerr('invalid character looking for beginning of value')
+            bad = e.P.g.setdefault('json_invalid', set())
+            key = s.t.get_id() if s.c is None else ('c', s.c)
+            if not mode or key in bad: return mkerr('invalid character looking for beginning of value')
+            if s.c is not None or e.choose(2) == 0:
+                bad.add(key)          # the same text is malformed for every later decoder call as well
+                return mkerr('invalid character looking for beginning of value')
             tree = havoc_tree(e, tt, cbor)
             attach(e, s, tree, 'cbor' if cbor else 'json')
         else:
